@@ -164,7 +164,8 @@ def spd(n, seed, tag="spd"):
 def OMEGA(n, tier, seed, level=None):
     I = [[1.0 if i == j else 0.0 for j in range(n)] for i in range(n)]
     D = [[float((i + 1) ** 2) if i == j else 0.0 for j in range(n)] for i in range(n)]
-    out = [("I", I), ("diag", D), ("spd", spd(n, seed))]
+    # "weak": correlated information of very small overall scale (all entries far below any absolute 'is it zero?' threshold)
+    out = [("I", I), ("diag", D), ("spd", spd(n, seed)), ("weak", [[1e-10 * x for x in r_] for r_ in spd(n, seed, "weak")])]
     if tier == "thorough" or level == "full":
         # ill-conditioned SPD (cond ~1e8): spd scaled along one axis
         S = spd(n, seed, "ill")
